@@ -141,7 +141,8 @@ def main(argv=None) -> int:
 
     # 1. translator
     try:
-        ext = extract.generate(write=not os.environ.get("VERIF_NO_EXTRACT"))
+        with leanio._Lock():  # Params.lean is shared with concurrent builds/audits
+            ext = extract.generate(write=not os.environ.get("VERIF_NO_EXTRACT"))
     except Exception as e:
         ext = {"_error": str(e)}
     changed = {k: v for k, v in ext.items() if isinstance(v, dict) and v.get("changed")}
@@ -303,22 +304,41 @@ def main(argv=None) -> int:
 
 
 def do_replay(prop, path, units, tier, seed) -> int:
+    """Replay a recorded violation against /repo's CURRENT tree.
+    * unit-specific `replay(ctx, witness)` when the unit has one (drives exactly the recorded input);
+    * otherwise the recorded unit is re-run with the recorded seed and tier (every random choice derives
+      from (seed, property, unit), so the same cases are generated) and the recorded failure key is looked for;
+    * a broken-tie replay (no failing input was found) re-runs the whole check."""
     p = path if os.path.isabs(path) else os.path.join(common.VERIF, path)
     rep = json.load(open(p))
-    print(json.dumps({k: rep[k] for k in rep if k not in ("all_violations",)}, indent=1)[:6000])
+    print(json.dumps({k: rep[k] for k in rep if k not in ("all_violations", "broken_ties")}, indent=1, default=str)[:4000])
+    kind = rep.get("kind")
+    if kind == "broken-tie":
+        print("replay of a broken tie: re-running the whole check")
+        return main([prop, "--tier", rep.get("tier", tier), "--seed", str(rep.get("seed", seed))])
     u = [u for u in units if u.name == rep.get("unit")]
-    if u and u[0].replay is not None:
+    if not u:
+        print(f"unit {rep.get('unit')!r} not registered any more")
+        return 2
+    if u[0].replay is not None:
         ctx = Ctx(prop, u[0].name, tier, seed)
         try:
             u[0].replay(ctx, rep["witness"])
         finally:
             ctx.close()
-        if ctx.violations:
-            print(f"VIOLATION property={prop} replay={path}")
-            return 1
-        print("replay: no violation reproduced")
-        return 0
-    return 1 if rep.get("kind") else 0
+        hit = bool(ctx.violations)
+    else:
+        rtier, rseed = rep.get("tier", tier), int(rep.get("seed", seed))
+        res = run_units(u, rtier, rseed)
+        vs = [v for r in res for v in r.get("violations", [])]
+        hit = any(v["key"] == rep.get("key") for v in vs)
+        print(f"re-ran unit {u[0].name} with seed={rseed} tier={rtier}: {len(vs)} violation record(s), "
+              f"recorded key {'reproduced' if hit else 'NOT reproduced'}")
+    if hit:
+        print(f"VIOLATION property={prop} replay={path}")
+        return 1
+    print("replay: no violation reproduced on the current tree")
+    return 0
 
 
 if __name__ == "__main__":
